@@ -904,6 +904,11 @@ def norm(t):
             base = norm(t[1])
             if base[0] == "trybranch":
                 base = base[1]
+            # the Ok / Some payload is not touched by error-side combinators
+            while base[0] == "call" and base[1] in ("std::result::Result::map_err", "std::option::Option::ok_or", "std::option::Option::ok_or_else", "std::result::Result::or_else") and base[2] and t[2] == "Ok/Some":
+                base = base[2][0]
+                if base[0] == "trybranch":
+                    base = base[1]
             out = ("payload", base, t[2])
         elif k == "call":
             out = ("call", t[1], norm(t[2]))
